@@ -334,6 +334,10 @@ pub assume_specification<T: Ord + core::marker::Destruct> [std::cmp::min] (a: T,
     ensures T::obeys_cmp_spec() ==> r == (if a.cmp_spec(&b) == Ordering::Greater { b } else { a }),
 ;
 
+// `x.into()` for Arc<T>: From<T> (std) wraps the value
+pub assume_specification<T>[<Arc<T> as From<T>>::from](t: T) -> (r: Arc<T>)
+    ensures *r == t;
+
 // Arc::clone returns an equal Arc (vstd states this for a direct call; this makes it available when the
 // clone happens inside Option::clone)
 pub mod clone_axiom {
